@@ -46,6 +46,17 @@ func vpC04_O1() {
 			vpAssert("hidden index has a response", proof.AResponses[i] != nil)
 		}
 	}
+	// a hidden value leaks if two responses share their randomizer: (response_i - response_j)/c = m_i - m_j.
+	// Every hidden index (the secret key included) has its own, independently drawn randomizer.
+	for i := 0; i <= k; i++ {
+		for j := i + 1; j <= k; j++ {
+			if (i == 0 || !isDisc[i]) && !isDisc[j] {
+				ri := vpImplied(proof.AResponses[i], proof.C, vpEff(cred.Attributes[i], pk))
+				rj := vpImplied(proof.AResponses[j], proof.C, vpEff(cred.Attributes[j], pk))
+				vpAssert("hidden attributes are blinded by independent randomizers", ri.Cmp(rj) != 0)
+			}
+		}
+	}
 	vpAssert("secret key stays hidden", proof.ADisclosed[0] == nil && proof.AResponses[0] != nil)
 	vpAssert("exact key sets", len(proof.ADisclosed) == nDisc && len(proof.AResponses) == k+1-nDisc)
 
